@@ -2172,7 +2172,14 @@ impl<'t, 'd> Gen<'t, 'd> {
                 }
                 8 => {
                     let wf = self.gen_wframe(&ord.clone());
+                    let before = frame.cols.len();
                     let d = self.gen_derive(frame, &ord.clone(), wf, true);
+                    // everything derived inside `window (..)` is compiled as a windowed column,
+                    // also an expression without a window function (sorting by it: hazard
+                    // sort_by_windowed)
+                    for c in frame.cols.iter_mut().skip(before) {
+                        c.windowed = true;
+                    }
                     Some(Step::Window {
                         frame: wf,
                         inner: vec![d],
